@@ -373,7 +373,13 @@ type psSucc struct {
 	fill []string
 }
 
+// psKnown holds the signatures already recorded by earlier BFS levels / graphs. It is written only between
+// parallel phases and read inside them; observations with a known signature are counted but not kept (their
+// detail strings would otherwise dominate memory while a defect multiplies the state space).
+var psKnown = map[string]bool{}
+
 type psExpand struct {
+	counts      map[string]int
 	events      []psEvent
 	succs       []psSucc
 	transitions int64
@@ -565,16 +571,23 @@ func psStep(c *psConfig, ps *types.PartSet, v0 psView, fill []string, t int) (ev
 }
 
 func psExpandState(c *psConfig, st *psState) *psExpand {
-	ex := &psExpand{accepted: map[int]bool{}, rejected: map[int]bool{}}
+	ex := &psExpand{accepted: map[int]bool{}, rejected: map[int]bool{}, counts: map[string]int{}}
+	keep := func(tok int, o obs) {
+		ex.counts[o.sig]++
+		if psKnown[o.sig] || ex.counts[o.sig] > 1 {
+			return
+		}
+		ex.events = append(ex.events, psEvent{tok, o})
+	}
 	ps, perr := psRebuild(c, st.hist)
 	ex.replaySteps += int64(len(st.hist))
 	if perr != "" {
-		ex.events = append(ex.events, psEvent{-1, obs{psSig("any", "rebuild-panics"), c.name + ": " + perr}})
+		keep(-1, obs{psSig("any", "rebuild-panics"), c.name + ": " + perr})
 		return ex
 	}
 	var v0 psView
 	if p, pv := safely(func() { v0 = psObserve(ps, c.n) }); p {
-		ex.events = append(ex.events, psEvent{-1, obs{psSig("any", "observe-panics"), c.name + ": " + pv}})
+		keep(-1, obs{psSig("any", "observe-panics"), c.name + ": " + pv})
 		return ex
 	}
 	var sev []obs
@@ -582,7 +595,7 @@ func psExpandState(c *psConfig, st *psState) *psExpand {
 		sev = append(sev, obs{psSig("any", "state-oracle-panics"), c.name + ": " + pv})
 	}
 	for _, o := range sev {
-		ex.events = append(ex.events, psEvent{-1, o})
+		keep(-1, o)
 	}
 	for t := range c.tokens {
 		evs, v1, changed, added := psStep(c, ps, v0, st.fill, t)
@@ -593,7 +606,7 @@ func psExpandState(c *psConfig, st *psState) *psExpand {
 			ex.rejected[t] = true
 		}
 		for _, o := range evs {
-			ex.events = append(ex.events, psEvent{t, o})
+			keep(t, o)
 		}
 		if changed {
 			if v1.key() != v0.key() {
@@ -640,6 +653,7 @@ func explorePS(c *psConfig) (tot psTotals, finished bool) {
 		res := make([]*psExpand, len(frontier))
 		par.For(int64(len(frontier)), 4, nil, func(i int64) { res[i] = psExpandState(c, frontier[i]) })
 		var next []*psState
+		var levelSigs []string
 		for i, ex := range res {
 			st := frontier[i]
 			tot.states++
@@ -663,6 +677,10 @@ func explorePS(c *psConfig) (tot psTotals, finished bool) {
 					cs.Token = c.tokens[e.tok].name
 				}
 				record(cs, e.o)
+				levelSigs = append(levelSigs, e.o.sig)
+			}
+			for sg, n := range ex.counts {
+				addCount(sg, n-boolInt(hasEvent(ex.events, sg)))
 			}
 			for _, s := range ex.succs {
 				if seen[s.key] {
@@ -672,6 +690,9 @@ func explorePS(c *psConfig) (tot psTotals, finished bool) {
 				r.Distinct("partset_states", c.name+"#"+s.key)
 				next = append(next, &psState{hist: append(append([]int{}, st.hist...), s.tok), fill: s.fill})
 			}
+		}
+		for _, sg := range levelSigs {
+			psKnown[sg] = true
 		}
 		frontier = next
 		if len(next) > 0 {
@@ -693,6 +714,22 @@ func explorePS(c *psConfig) (tot psTotals, finished bool) {
 		r.Require(tot.complete > 0, c.name+": no complete state reached")
 	}
 	return tot, true
+}
+
+func boolInt(b bool) int {
+	if b {
+		return 1
+	}
+	return 0
+}
+
+func hasEvent(evs []psEvent, sig string) bool {
+	for _, e := range evs {
+		if e.o.sig == sig {
+			return true
+		}
+	}
+	return false
 }
 
 func runPartSets() {
